@@ -3,6 +3,7 @@ import Verif.Model.DS.Ops
 import Verif.Model.DS.OrderedMap
 import Verif.Model.DS.BiMap
 import Verif.Spec.DS
+import Verif.Model.DS.IntervalST
 /-! Driver for stream `ds` (C51): one line = one operation sequence on one structure.
     `ds <kind> <init> op|op|…  =>  obs;obs;…`  The driver runs the code-shaped model *and* the spec. -/
 open Verif.Proto Verif.DS Verif.Model.DS
@@ -189,12 +190,209 @@ def judgeBm (init : String) (opsS go : String) : Verdict :=
       else regroupBm ops ((Verif.Spec.DS.BM.run ([] : List (Int × Int)) pops).map showBmObs)
     verdict "bm" ops go model spec ["bm.init." ++ init]
 
+/-! ### interval tree (shape is random: relation against the spec, exact against the model on the
+     dumped shape) -/
+section ist
+open Verif.Model.DS.IntervalST
+
+abbrev ITree := Tree Int
+abbrev Entry := Interval × Int
+
+def showIv (i : Interval) : String := toString i.min ++ "-" ++ toString i.max
+def showEntry (e : Entry) : String := showIv e.1 ++ "=" ++ toString e.2
+def showFound : Option Entry → String
+  | none => "nil"
+  | some e => showEntry e
+def showEntries (l : List Entry) : String := "[" ++ ",".intercalate (l.map showEntry) ++ "]"
+
+def entryLe (a b : Entry) : Bool :=
+  a.1.min < b.1.min || (a.1.min == b.1.min && (a.1.max < b.1.max || (a.1.max == b.1.max && a.2 ≤ b.2)))
+def sortEntries (l : List Entry) : List Entry := l.mergeSort entryLe
+def sameMultiset (a b : List Entry) : Bool := sortEntries a == sortEntries b
+def sameInts (a b : List Int) : Bool := a.mergeSort (· ≤ ·) == b.mergeSort (· ≤ ·)
+
+/-- parse `a-b=v` -/
+def parseEntry (s : String) : Option Entry :=
+  match s.splitOn "=" with
+  | [iv, v] =>
+    match iv.splitOn "-" with
+    | [a, b] => do some (⟨← a.toInt?, ← b.toInt?⟩, ← v.toInt?)
+    | _ => none
+  | _ => none
+
+def parseEntryList (s : String) : Option (List Entry) :=
+  if !(s.startsWith "[" && s.endsWith "]") then none else
+  let body := ((s.drop 1).dropEnd 1).toString
+  if body == "" then some [] else (body.splitOn ",").mapM parseEntry
+
+def parseIntList (s : String) : Option (List Int) :=
+  if !(s.startsWith "[" && s.endsWith "]") then none else
+  let body := ((s.drop 1).dropEnd 1).toString
+  if body == "" then some [] else (body.splitOn ",").mapM String.toInt?
+
+/-- parse the pre-order dump `(a-b=v^max#n<left><right>` / `.` -/
+partial def parseTree (cs : List Char) : Option (ITree × List Char) :=
+  match cs with
+  | '.' :: rest => some (.nil, rest)
+  | '(' :: rest =>
+    let hdr := rest.takeWhile (fun c => c != '(' && c != '.')
+    let rest := rest.dropWhile (fun c => c != '(' && c != '.')
+    match (String.ofList hdr).splitOn "#" with
+    | [ev, n] =>
+      match ev.splitOn "^" with
+      | [e, m] => do
+        let e ← parseEntry e
+        let mx ← if m == "min" then some none else m.toInt?.map some
+        let (l, rest) ← parseTree rest
+        let (r, rest) ← parseTree rest
+        some (.node e.1 e.2 mx l r (← n.toNat?), rest)
+      | _ => none
+    | _ => none
+  | _ => none
+
+/-- every node caches the size and max of its subtree -/
+def allFixed : ITree → Bool
+  | .nil => true
+  | .node i v m l r n => allFixed l && allFixed r && decide (Tree.fix (.node i v m l r n) = .node i v m l r n)
+
+def sortedBy (le : Entry → Entry → Bool) : List Entry → Bool
+  | a :: b :: t => le a b && sortedBy le (b :: t)
+  | _ => true
+
+def depth : ITree → Nat
+  | .nil => 0
+  | .node _ _ _ l r _ => 1 + max (depth l) (depth r)
+
+/-- is there a coin sequence under which the model's `Put` turns `prev` into `t`? -/
+def someOracle (prev : ITree) (i : Interval) (v : Int) (t : ITree) : Bool :=
+  (List.range (depth prev + 2)).any (fun k => decide (put prev i v (List.replicate k false ++ [true]) = t))
+
+structure IstState where
+  spec : List Entry := []
+  shape : Option ITree := some .nil
+  lastPut : Option (Option ITree × Interval × Int) := none
+  viol : Option (Nat × String × String) := none     -- first contradiction of the spec
+  diff : Option (Nat × String × String) := none     -- first difference from the model
+  tags : List String := []
+
+def IstState.v (st : IstState) (i : Nat) (want got : String) : IstState :=
+  if st.viol.isSome then st else { st with viol := some (i, want, got) }
+def IstState.d (st : IstState) (i : Nat) (want got : String) : IstState :=
+  if st.diff.isSome then st else { st with diff := some (i, want, got) }
+def IstState.tag (st : IstState) (t : String) : IstState :=
+  if st.tags.contains t then st else { st with tags := t :: st.tags }
+
+def istModelCheck (st : IstState) (i : Nat) (f : ITree → String) (go : String) : IstState :=
+  match st.shape with
+  | some t => if f t == go then st.tag "ist.model-exact" else st.d i (f t) go
+  | none => st.tag "ist.shape-unknown"
+
+def istStep (st : IstState) (i : Nat) (op : List String) (go : String) : IstState :=
+  let int? (s : String) := s.toInt?
+  match op with
+  | ["put", a, b, v] | ["putraw", a, b, v] =>
+    match int? a, int? b, int? v with
+    | some a, some b, some v =>
+      if op.head! == "put" && (newInterval a b).isNone then
+        (if go == "panic" then st.tag "ist.put.illegal-interval-panic" else st.d i "panic" go)
+      else if go != "ok" then st.v i "ok" go
+      else { st with spec := (⟨a, b⟩, v) :: st.spec, shape := none,
+                     lastPut := if st.lastPut.isNone then some (st.shape, ⟨a, b⟩, v) else some (none, ⟨a, b⟩, v) }
+            |>.tag (if a == b then "ist.put.point" else "ist.put")
+    | _, _, _ => st.d i "bad-op" go
+  | ["dump"] =>
+    match parseTree go.toList with
+    | some (t, []) =>
+      let st := if !allFixed t then st.v i "every node caches size and max of its subtree" go else st
+      let st := if !sortedBy (fun a b => a.1.compare b.1 != .gt) (entries t) then st.v i "in-order entries sorted by (min,max)" go else st
+      let st := if !sameMultiset (entries t) st.spec then st.v i ("entries " ++ showEntries (sortEntries st.spec)) go else st
+      let st := match st.lastPut with
+        | some (some prev, iv, v) =>
+          if someOracle prev iv v t then st.tag "ist.put.oracle-found" else st.d i "a shape reachable by randomizedInsert under some coin sequence" go
+        | _ => st
+      { st with shape := some t, lastPut := none }
+    | _ => st.d i "parsable dump" go
+  | ["s", p] =>
+    match int? p with
+    | some p =>
+      let st := istModelCheck st i (fun t => showFound (search t p)) go
+      let hits := st.spec.filter (fun e => e.1.contains p)
+      if go == "nil" then (if hits.isEmpty then st.tag "ist.s.none" else st.v i ("some interval containing the point, e.g. " ++ showEntries (hits.take 1)) go)
+      else match parseEntry go with
+        | some e => if hits.contains e then st.tag "ist.s.found" else st.v i (if hits.isEmpty then "nil" else "an entry containing the point") go
+        | none => st.v i "nil or an entry" go
+    | none => st.d i "bad-op" go
+  | ["si", a, b] =>
+    match int? a, int? b with
+    | some a, some b =>
+      let q : Interval := ⟨a, b⟩
+      let st := istModelCheck st i (fun t => showFound (searchInterval t q)) go
+      let hits := st.spec.filter (fun e => e.1.intersects q)
+      if go == "nil" then (if hits.isEmpty then st.tag "ist.si.none" else st.v i ("some intersecting interval, e.g. " ++ showEntries (hits.take 1)) go)
+      else match parseEntry go with
+        | some e => if hits.contains e then st.tag "ist.si.found" else st.v i (if hits.isEmpty then "nil" else "an intersecting entry") go
+        | none => st.v i "nil or an entry" go
+    | _, _ => st.d i "bad-op" go
+  | ["sa", p] =>
+    match int? p with
+    | some p =>
+      let st := istModelCheck st i (fun t => showEntries (searchAllTop t p)) go
+      let hits := st.spec.filter (fun e => e.1.contains p)
+      match parseEntryList go with
+      | some es => if sameMultiset es hits then st.tag (if hits.isEmpty then "ist.sa.empty" else if hits.length > 1 then "ist.sa.many" else "ist.sa.one")
+                   else st.v i (showEntries (sortEntries hits) ++ " as a multiset") go
+      | none => st.v i "a list of entries" go
+    | none => st.d i "bad-op" go
+  | ["get", a, b] | ["has", a, b] =>
+    match int? a, int? b with
+    | some a, some b =>
+      let q : Interval := ⟨a, b⟩
+      let isGet := op.head! == "get"
+      let st := istModelCheck st i (fun t => if isGet then showOptVal (get t q) else b01 (contains t q)) go
+      let hits := (st.spec.filter (fun e => e.1 == q)).map (·.2)
+      if isGet then
+        if go == "0:0" then (if hits.isEmpty then st.tag "ist.get.absent" else st.v i "a value stored under the interval" go)
+        else if hits.any (fun v => toString v ++ ":1" == go) then st.tag (if hits.length > 1 then "ist.get.duplicate-interval" else "ist.get.present")
+        else st.v i (if hits.isEmpty then "0:0" else "a value stored under the interval") go
+      else if go == b01 (!hits.isEmpty) then st.tag ("ist.has." ++ go) else st.v i (b01 (!hits.isEmpty)) go
+    | _, _ => st.d i "bad-op" go
+  | ["vals"] =>
+    let st := istModelCheck st i (fun t => showInts (values t)) go
+    match parseIntList go with
+    | some vs => if sameInts vs (st.spec.map (·.2)) then st.tag "ist.vals" else st.v i "all stored values as a multiset" go
+    | none => st.v i "a list" go
+  | ["chk"] =>
+    let st := istModelCheck st i (fun t => b01 (check t)) go
+    if go == "1" then st.tag "ist.chk" else st.v i "1" go
+  | _ => st.d i "bad-op" go
+
+def judgeIst (opsS go : String) : Verdict :=
+  let ops := splitOps opsS
+  let goObs := splitObs go
+  if ops.length != goObs.length then .modelDiff "observation count differs from operation count" [] else
+  let rec loop (st : IstState) (i : Nat) : List (List String) → List String → IstState
+    | op :: ops, g :: gs => loop (istStep st i op g) (i + 1) ops gs
+    | _, _ => st
+  let st := loop {} 0 ops goObs
+  let tags := (if ops.length > 1 then ["!nt"] else []) ++ st.tags
+  match st.viol with
+  | some d =>
+    let opn := (ops.getD d.1 []).headD "?"
+    .violation ("ist-" ++ opn ++ "-wrong") (describe ops d) tags
+  | none =>
+    match st.diff with
+    | some d => .modelDiff (describe ops d) tags
+    | none => .ok tags
+
+end ist
+
 end DsDrv
 
 def judge (op : List String) (go : String) : Verdict :=
   match op with
   | ["ds", "om", init, ops] => DsDrv.judgeOm init ops go
   | ["ds", "bm", init, ops] => DsDrv.judgeBm init ops go
+  | ["ds", "ist", _, ops] => DsDrv.judgeIst ops go
   | ["ds", _, _, _] => .skip "kind-not-modelled-yet"
   | _ => .skip "unknown-op"
 
